@@ -251,3 +251,6 @@ PLANS["C16"].proofs += [("contracts.ufunc", n) for n in _U.UNARY if "_out_" not 
 
 from contracts import closeness as _CL   # noqa: E402
 PLANS["C19"].proofs += [("contracts.closeness", n) for n in _CL.ALL]
+
+from contracts import parsing as _PA   # noqa: E402
+PLANS["C20"].proofs += [("contracts.parsing", n) for n in _PA.ALL]
